@@ -29,9 +29,16 @@ ESCAPE_SEQUENCE_RE = re.compile(r'''
     )''', re.UNICODE | re.VERBOSE)
 
 
-def decode_escapes(s):
+def decode_escapes(s, position=0):
     def decode_match(match):
-        return codecs.decode(match.group(0), 'unicode-escape')
+        try:
+            return codecs.decode(match.group(0), 'unicode-escape')
+        except UnicodeDecodeError:
+            # malformed escape (\xzz, \N{no such name}, ...): report it as a
+            # lexical error at the backslash instead of leaking the codec's
+            # exception to the caller
+            raise exceptions.YaqlLexicalException(
+                match.group(0)[0], position + match.start())
     return ESCAPE_SEQUENCE_RE.sub(decode_match, s)
 
 
@@ -89,10 +96,14 @@ class Lexer:
         """
         \\b\\d+(\\.?\\d+)?\\b
         """
-        if '.' in t.value:
-            t.value = float(t.value)
-        else:
-            t.value = int(t.value)
+        try:
+            if '.' in t.value:
+                t.value = float(t.value)
+            else:
+                t.value = int(t.value)
+        except ValueError:
+            # e.g. more digits than int() is willing to convert
+            raise exceptions.YaqlLexicalException(t.value[0], t.lexpos)
         return t
 
     @staticmethod
@@ -120,7 +131,7 @@ class Lexer:
         """
         '([^'\\\\]|\\\\.)*'
         """
-        t.value = decode_escapes(t.value[1:-1])
+        t.value = decode_escapes(t.value[1:-1], t.lexpos + 1)
         return t
 
     @staticmethod
@@ -128,7 +139,7 @@ class Lexer:
         """
         "([^"\\\\]|\\\\.)*"
         """
-        t.value = decode_escapes(t.value[1:-1])
+        t.value = decode_escapes(t.value[1:-1], t.lexpos + 1)
         t.type = 'QUOTED_STRING'
         return t
 
